@@ -1088,11 +1088,22 @@ type IPSECKEY struct {
 	PublicKey   string `dns:"base64"`
 }
 
+// ipv6GatewayString prints an IPv6 gateway or relay address; like AAAA it keeps an
+// IPv4-mapped address recognisable as IPv6.
+func ipv6GatewayString(ip net.IP) string {
+	if ip.To4() != nil {
+		return ipv4InIPv6Prefix + ip.String()
+	}
+	return ip.String()
+}
+
 func (rr *IPSECKEY) String() string {
 	var gateway string
 	switch rr.GatewayType {
-	case IPSECGatewayIPv4, IPSECGatewayIPv6:
+	case IPSECGatewayIPv4:
 		gateway = rr.GatewayAddr.String()
+	case IPSECGatewayIPv6:
+		gateway = ipv6GatewayString(rr.GatewayAddr)
 	case IPSECGatewayHost:
 		gateway = rr.GatewayHost
 	case IPSECGatewayNone:
@@ -1120,8 +1131,10 @@ type AMTRELAY struct {
 func (rr *AMTRELAY) String() string {
 	var gateway string
 	switch rr.GatewayType & 0x7f {
-	case AMTRELAYIPv4, AMTRELAYIPv6:
+	case AMTRELAYIPv4:
 		gateway = rr.GatewayAddr.String()
+	case AMTRELAYIPv6:
+		gateway = ipv6GatewayString(rr.GatewayAddr)
 	case AMTRELAYHost:
 		gateway = rr.GatewayHost
 	case AMTRELAYNone:
